@@ -78,3 +78,11 @@ package keys
 //@ opt frame off
 //@ call NewPrivateKeyFromBytes requires[version] b[0] == ite(version == 0, WIFVersion, version)
 //@ call NewPrivateKeyFromBytes requires[shape] (len(b) == 33 || (len(b) == 34 && b[33] == 1)) && len(arg0) == 32 && forall(k, 0, 32, arg0[k] == b[1+k])
+
+// (C16/C18) two keys compare equal only when both coordinates are equal (a key and its mirror image
+// share X): group membership and permissions are decided with this comparison.
+//@ prop C16,C18
+//@ func (*PublicKey).Cmp
+//@ may-panic
+//@ requires p != nil && key != nil
+//@ ensures[equal] p.X != nil && p.Y != nil && key.X != nil && key.Y != nil ==> (result == 0) == (p.X.v == key.X.v && p.Y.v == key.Y.v)
